@@ -310,7 +310,13 @@ func runC10(c Case) (res evid.Result) {
 	opts.IsIncomingFaceIndicationEnabled = c.InFaceInd
 	var sender *face.NDNLPLinkService
 	if c.LateOpts {
-		sender = face.MakeNDNLPLinkService(tx, face.MakeNDNLPLinkServiceOptions())
+		// created with the opposite of what it is then set to (a link service made without fragmentation
+		// - the way TCP faces are made - and switched to fragmentation later must size its frames for
+		// fragmentation: seeded C10-r10-2 computed the header overhead from the old options)
+		first := face.MakeNDNLPLinkServiceOptions()
+		first.IsFragmentationEnabled = !opts.IsFragmentationEnabled
+		first.IsIncomingFaceIndicationEnabled = !opts.IsIncomingFaceIndicationEnabled
+		sender = face.MakeNDNLPLinkService(tx, first)
 		sender.SetOptions(opts)
 		cls["options-changed-after-creation"] = true
 	} else {
